@@ -518,6 +518,13 @@ impl Driver {
                         self.publish(s);
                     }
                 }
+                Op::PutSwapped { k1, k2 } => {
+                    let s1 = self.next_seq();
+                    let s2 = self.next_seq();
+                    self.put_one(*k2, false, s2);
+                    self.put_one(*k1, false, s1);
+                    self.publish(s2);
+                }
                 Op::MultiDel { ks } => {
                     for k in ks {
                         let s = self.next_seq();
